@@ -22,10 +22,10 @@ class Prov:
         self.cfg = cfg
         self.argc = fn["argc"]
         self.names = {}
-        for name, e in fn.get("names", {}).items():
+        for e in fn.get("names", []):
             p = e["p"]
             if "p" not in p:
-                self.names.setdefault(p["l"], name)
+                self.names.setdefault(p["l"], e["n"])
         self.local_ty = {l["id"]: l["ty"] for l in fn["locals"]}
         self.local_tk = {l["id"]: l.get("tk") for l in fn["locals"]}
         self._collect_defs()
@@ -146,7 +146,13 @@ class Prov:
                 return ("fnref", op["fn"])
             if "bytes" in op:
                 return ("bytes", tuple(op["bytes"]))
-            return ("const", op.get("value"), op.get("path"), op.get("ty"))
+            path = op.get("path")
+            if op.get("refs"):
+                # a promoted constant: name it after the named constants its body refers to
+                path = "&" + "+".join(op["refs"])
+            if op.get("mem") is not None:
+                return ("const", op.get("value"), path, op.get("ty"), tuple(op["mem"]))
+            return ("const", op.get("value"), path, op.get("ty"))
         if k in ("copy", "move"):
             return self.place(op["p"], at, depth, seen)
         return ("unknown", op.get("dbg", k))
